@@ -184,6 +184,7 @@ func c30SelfTest() {
 type c30Spec struct {
 	authOn   bool
 	anon     bool // send without credentials
+	presign  bool // credentials in the query string (presigned URL); the chunk chain is seeded by X-Amz-Signature
 	mode     string
 	trailer  string
 	payload  []byte
@@ -227,7 +228,7 @@ func runC30(args []string) {
 			keyNo++
 			key := fmt.Sprintf("obj-%d-%d %s", caseNo, keyNo, label)
 			spec := &verifx.SigSpec{Method: "PUT", Host: c30Host, Bucket: c30Bucket, Key: key, Mode: sp.mode, Trailer: sp.trailer,
-				Body: sp.payload, Chunks: sp.chunks, AltFrame: sp.altFrame, Cred: sp.cred, Region: verifx.SigRegion, SignTime: time.Now(),
+				Presign: sp.presign && !sp.anon, Expires: 900, Body: sp.payload, Chunks: sp.chunks, AltFrame: sp.altFrame, Cred: sp.cred, Region: verifx.SigRegion, SignTime: time.Now(),
 				Header: [][2]string{{"Content-Type", "application/octet-stream"}}}
 			if sp.gzip {
 				spec.Header = append(spec.Header, [2]string{"Content-Encoding", "gzip"})
@@ -245,7 +246,7 @@ func runC30(args []string) {
 				return
 			}
 			out.Line("orig %s %s", label, verifx.Hex(orig)) // the body before the single-point mutation
-			verifx.SendWire(out, srv.l, label, sp.mode, w, sp.cred.AK, sp.payload, sdk)
+			verifx.SendWire(out, srv.l, label, spec.Label(), w, sp.cred.AK, sp.payload, sdk)
 			present, content, note := srv.readBack(key, sp.cred)
 			if note != "" {
 				out.Line("stored %s 2 %s", label, verifx.HexS(note))
@@ -327,15 +328,35 @@ func runC30(args []string) {
 	emit(n, c30Spec{authOn: true, mode: verifx.ModeStream, payload: payload, chunks: []int{1, 1, 1, 1, 1, 15, 16, 17}, gzip: true, cred: verifx.SigCreds[0]})
 	n++
 
+	// the full product: authentication carrier (header-signed, presigned query, anonymous) x server
+	// configuration (credentials configured or not) x payload mode (plain hash, UNSIGNED-PAYLOAD, the
+	// four streaming modes)
+	allModes := append([]string{verifx.ModeHash, verifx.ModeUnsigned}, modes...)
+	for _, authOn := range []bool{true, false} {
+		for _, carrier := range []string{"header", "presign", "anon"} {
+			for _, m := range allModes {
+				emit(n, c30Spec{authOn: authOn, presign: carrier == "presign", anon: carrier == "anon", mode: m,
+					trailer: verifx.TrailerNames[int(n)%len(verifx.TrailerNames)], payload: payload, chunks: []int{9, 20}, cred: verifx.SigCreds[int(n)%2]})
+				n++
+			}
+		}
+	}
+	emit(n, c30Spec{authOn: true, presign: true, mode: verifx.ModeStream, payload: big[:20000], chunks: []int{9000, 11}, cred: verifx.SigCreds[0]})
+	n++
+
 	sizes := []int{1, 2, 15, 16, 17, 255, 256, 257, 1000, 4096}
 	for c := 0; c < f.Cases; c++ {
 		seed := verifx.CaseSeed(f.Seed, k)
 		r := verifx.NewRng(seed)
 		sp := c30Spec{authOn: !r.Chance(1, 5), mode: verifx.Pick(r, modes), cred: verifx.Pick(r, verifx.SigCreds)}
-		if !sp.authOn {
-			sp.anon = r.Chance(1, 3)
-		} else {
-			sp.anon = r.Chance(1, 25)
+		if r.Chance(1, 8) {
+			sp.mode = verifx.Pick(r, []string{verifx.ModeHash, verifx.ModeUnsigned})
+		}
+		switch x := r.Intn(20); {
+		case !sp.authOn && x < 7, sp.authOn && x < 2:
+			sp.anon = true
+		case x < 13:
+			sp.presign = true
 		}
 		var size int
 		switch r.Intn(10) {
